@@ -126,9 +126,43 @@ def injected_lists(row):
     return bad
 
 
+def stacked(row):
+    """Two layers of wraps: the outer wrapper's __wrapped__ is the function it was given (itself a wraps product), its own
+    signature is still the expected one, and inspect.unwrap walks every layer down to the original."""
+    from boltons import funcutils
+    sig, mode = row["sig"], row["mode"]
+    if mode not in ("plain", "inject"):
+        return []
+    want_params = [[NAME[p[0]], p[1], p[2]] for p in row["wparams"]]
+    f = make_func(sig, False, False)
+
+    def w1(*a, **kw):
+        return None
+
+    def w2(*a, **kw):
+        return None
+    try:
+        inner = funcutils.wraps(f, injected=[NAME[row["arg"]]])(w1) if mode == "inject" else funcutils.wraps(f)(w1)
+        outer = funcutils.wraps(inner)(w2)
+    except Exception as ex:
+        return [("stacked", "wraps-raised:" + core.exc_name(ex), str(ex)[:200])]
+    bad = []
+    if getattr(outer, "__wrapped__", None) is not inner or getattr(inner, "__wrapped__", None) is not f:
+        bad.append(("stacked", "metadata", {"outer.__wrapped__ is inner": getattr(outer, "__wrapped__", None) is inner,
+                                            "inner.__wrapped__ is f": getattr(inner, "__wrapped__", None) is f}))
+    elif inspect.unwrap(outer) is not f:
+        bad.append(("stacked", "metadata", "inspect.unwrap does not reach the original"))
+    got = [[n, k, d] for n, k, d, _ in params_of(outer)]
+    if got != want_params:
+        bad.append(("stacked", "signature", {"wrapper": got, "expected": want_params}))
+    if (outer.__name__, outer.__doc__, outer.__module__) != (f.__name__, f.__doc__, f.__module__):
+        bad.append(("stacked", "metadata", (outer.__name__, outer.__doc__, outer.__module__)))
+    return bad
+
+
 def run_row(row):
     from boltons import funcutils
-    bad = equalish_defaults(row) + injected_lists(row)
+    bad = equalish_defaults(row) + injected_lists(row) + stacked(row)
     sig, mode = row["sig"], row["mode"]
     want_params = [[NAME[p[0]], p[1], p[2]] for p in row["wparams"]]
     seen = row["seen"]
